@@ -243,6 +243,8 @@ func (g *Gateway) queryHandler(w http.ResponseWriter, r *http.Request) {
 				}, nil
 			}
 
+			applyVariableDefaults(operation, request)
+
 			planningContext := &planner.PlanningContext{
 				Request:    request,
 				Operation:  operation,
@@ -335,6 +337,28 @@ func (g *Gateway) getQueryers(planningCtx *planner.PlanningContext, planSteps []
 	}
 
 	return queryers
+}
+
+// applyVariableDefaults gives a variable the client left out the default value of its declaration.
+// The requests to the services declare the variables anew and carry values only,
+// a default which stays behind in the client's operation would be lost
+func applyVariableDefaults(operation *ast.OperationDefinition, request *requests.Request) {
+	for _, definition := range operation.VariableDefinitions {
+		if definition.DefaultValue == nil {
+			continue
+		}
+		if _, ok := request.Variables[definition.Variable]; ok {
+			continue
+		}
+		value, err := definition.DefaultValue.Value(nil)
+		if err != nil {
+			continue
+		}
+		if request.Variables == nil {
+			request.Variables = make(map[string]interface{})
+		}
+		request.Variables[definition.Variable] = value
+	}
 }
 
 func emitError(w http.ResponseWriter, code int, err error) {
